@@ -700,14 +700,16 @@ func specialScenarios(start int, seed uint64, thorough bool) []*Scenario {
 		sc.Incs = []uint32{4097, 7000}
 		sc.LowStream, sc.LowConn = 1, 1
 		sc.Reqs = []ReqSpec{
-			{Upload: 160000, RespSize: 1, RespChunk: 16384, App: appReadAll},
+			// the first upload outlasts the script by far: 100000 bytes at once, the rest at
+			// about 5500 bytes per 2 ms tick (and it has to work off the lowered window first)
+			{Upload: 400000, RespSize: 1, RespChunk: 16384, App: appReadAll},
 			{Upload: 90000, RespSize: 1, RespChunk: 16384, App: appReadAll, Gated: true},
 			{Upload: 70000, UnknownLen: true, RespSize: 1, RespChunk: 16384, App: appReadAll, Gated: true},
 		}
 		sc.Actions = []Action{
 			{TrigUp: 20000, TrigTicks: 400, Kind: "start-req", Inc: 1},
-			{TrigTicks: 5, Kind: "start-req", Inc: 2},
-			{TrigTicks: 10, Kind: "settings", Settings: [][2]uint32{{4, nw}}},
+			{TrigTicks: 3, Kind: "start-req", Inc: 2},
+			{TrigTicks: 5, Kind: "settings", Settings: [][2]uint32{{4, nw}}},
 		}
 		add(sc)
 	}
